@@ -30,6 +30,11 @@ def run(ctx):
     mc1 = ctx.model_check("MCServeLoop", sc.c07_mc_cfg("C7ItemsMC"), sc.C07_INVS, workers=4, timeout=600, name="MCServeLoop_c07")
     mc2 = ctx.model_check("MCServeLoop", sc.c07_mc_cfg("C7ItemsSeq", length=2), sc.C07_INVS, workers=4, timeout=600,
                           name="MCServeLoop_c07seq")
+    # non-vacuity: the code-like deviation (default reply decided from the start element as the handler left it) must
+    # break the reply rule
+    dv = ctx.tlc("MCServeLoop", sc.c07_mc_cfg("C7ItemsMC", dev='{"StartAfterHandler"}'), workers=4, timeout=600, name="MCServeLoop_c07dev")
+    if not dv.violated:
+        raise verif.Undecided("design self-test: deviation StartAfterHandler violates no invariant of the reply rule:\n" + dv.out[-1500:])
     res = sc.emit_parallel(ctx, "EmitServeLoop", sc.serve_emit_cfgs(ctx, "c07", 4 if quick else 6))
     vecs = sc.collect(res, r"c07_vectors_\d+\.ndjson")
     nvec = sum(1 for f in vecs for _ in open(f))
@@ -78,11 +83,12 @@ def run(ctx):
         "sessions_ended_with_error": summ["terminated_with_error"],
         "stream_error_elements_on_wire": summ["stream_error_elements_on_wire"],
         "binding_selftest_corruptions_rejected": nself,
-        "exhaustive": ("quick: every (iq type, id, handler writes, return, mode) x 30 derived combinations: every (session kind(6: "
+        "deviation_caught": "StartAfterHandler -> " + ", ".join(dv.violated),
+        "exhaustive": ("quick: every (iq type, id, handler writes, return(3: ok, error, stanza error), mode) x 30 derived combinations with every mutation of the start element(6) 5 times: every (session kind(6: "
                        "initiated c2s / s2s, WebSocket, received c2s / s2s, library-negotiated c2s with binding), from(5: none, own bare, "
                        "own full, other entity, server)) pair x rotating (to(3), namespace(own / the other stanza namespace), payload(4), "
                        "read(4)) + other stanzas on every session kind" if quick else
-                       "full product iq type(6) x id(4) x payload(4) x read(4) x writes(12) x return(2) x mode(3) x 15 derived "
+                       "full product iq type(6) x id(4) x payload(4) x read(4) x writes(12) x return(3) x mode(3) x 15 derived (with rotating mutation of the start element(6)) "
                        "(session kind(6), from(5), to(3), namespace(2)) combinations + other stanzas on every session kind"),
         "rule": "every vector is one real session: negotiation, element under test, sentinel request, closing tag (WebSocket: end of "
                 "transport); distinct = (session kind, element kind, type, mode, number of output elements, error) classes; "
@@ -104,7 +110,7 @@ def signature(m):
     v = m["vector"]
     needs = v["e"]["kind"] == "iq" and v["e"]["type"] in ("get", "set") and v["e"]["id"] not in ("none", "")
     return (v["mode"] != "plain", v["e"]["kind"], needs, v["e"]["payload"] == "none", v["p"]["w"] in ("notype", "bogustype"),
-            v["p"]["ret"], bool(m.get("serve_error")), bool(m.get("panic")), m.get("unread", 0) > 0,
+            v["p"]["ret"], v["p"].get("mut", "none") != "none" and v["p"].get("mut"), bool(m.get("serve_error")), bool(m.get("panic")), m.get("unread", 0) > 0,
             v["hdrdiffers"], v["e"]["from"] in ("none", "own"))
 
 
